@@ -13,7 +13,7 @@ RULE = ("round trip xyz_str -> from_xyz for n in {1,2,3,7,40,100,1000,1001} (tho
         "coordinate from a value grid (0, -0, +-1e-9, +-4.9e-9, +-5.1e-9, +-0.123456789, +-1, +-12345.678901234, +-999999.99999999, "
         "+-1e6; full product for one atom, Latin-square covering above), 9 comment lines incl. None, empty, numeric-looking, "
         "unicode, tabs, 200 characters: elements identical, |delta| <= 0.5e-8 (+1 ulp).  Connectivity: all 118x118 element pairs "
-        "at distance cutoff*(1 -+ 1e-6) and cutoff*(1 -+ 0.02) in a seed-derived direction, via the matrix API, the scalar API and "
+        "at distance cutoff*(1 -+ 1e-6), cutoff*(1 -+ 0.02), 0 (coincident atoms) and cutoff*1e-9 in a seed-derived direction, via the matrix API, the scalar API and "
         "MolGraph.from_geometry: symmetric, zero diagonal, bond iff d < 1.2(r1+r2) recomputed from the radii table; the "
         "repository's XYZ files and the C07 templates under rigid motions and atom permutations.  distinct = cases")
 ASSUMPTIONS = ["comment lines are single lines", "the covalent radii table is data of the library and is read, not re-derived",
@@ -125,7 +125,9 @@ def _pairs(item, out):
     for z1 in range(item["lo"], item["hi"]):
         for z2 in range(1, 119):
             c = G.cutoff(z1, z2)
-            for f, exp in ((1 - 1e-6, 1), (1 + 1e-6, 0), (0.98, 1), (1.02, 0), (0.5, 1), (3.0, 0)):
+            # (factor 0: two different atoms at exactly the same position - a shared crystal site, superimposed fragments - are
+            #  closer than any cut-off and therefore bonded; only an atom and itself are not)
+            for f, exp in ((1 - 1e-6, 1), (1 + 1e-6, 0), (0.98, 1), (1.02, 0), (0.5, 1), (3.0, 0), (0.0, 1), (1e-9, 1)):
                 d = c * f
                 # near the origin and translated by ~1e6 (float64 keeps ~1e-10 A there; the 1e-6 relative margin is far above)
                 origin = origins[(z1 + z2 + int(f * 10)) % 3] if f in (1 - 1e-6, 1 + 1e-6) else origins[0]
